@@ -28,8 +28,18 @@ func (p *Program) origins(v ssa.Value) []string {
 		defer delete(seen, v)
 		switch x := v.(type) {
 		case *ssa.Parameter:
+			if p.ctxG != nil {
+				if a, ok := p.ctxG.Bind[x]; ok {
+					return rec(a, depth+1)
+				}
+			}
 			return []string{"param:" + x.Name()}
 		case *ssa.FreeVar:
+			if p.ctxG != nil {
+				if a, ok := p.ctxG.Bind[x]; ok {
+					return rec(a, depth+1)
+				}
+			}
 			return []string{"freevar:" + x.Name()}
 		case *ssa.Const:
 			if x.Value == nil {
@@ -84,6 +94,19 @@ func (p *Program) origins(v ssa.Value) []string {
 			}
 			return out
 		case *ssa.Call:
+			if p.ctxG != nil {
+				if y := p.ctxG.Inlined[x]; y != nil && y.Signature.Results().Len() == 1 {
+					var out []string
+					for _, b := range y.Blocks {
+						if ret, ok := b.Instrs[len(b.Instrs)-1].(*ssa.Return); ok {
+							out = append(out, rec(retOperand(ret, 0), depth+1)...)
+						}
+					}
+					if len(out) > 0 {
+						return out
+					}
+				}
+			}
 			q := shortCallee(&x.Call)
 			if recv := callRecv(&x.Call); recv != nil {
 				var out []string
@@ -187,6 +210,11 @@ func anyContains(chains []string, sub string) bool {
 // passes one node; from a node, neither another node nor a function exit is reachable without
 // passing the loop test again.
 func (g *IG) loopExactlyOnce(nodes map[int]bool) (bool, string) {
+	return g.loopExactlyOnceA(nodes, nil)
+}
+
+// loopExactlyOnceA: as loopExactlyOnce, with the edges of avoid assumed infeasible.
+func (g *IG) loopExactlyOnceA(nodes map[int]bool, avoid map[edge]bool) (bool, string) {
 	if len(nodes) == 0 {
 		return false, "no such call"
 	}
@@ -213,13 +241,13 @@ func (g *IG) loopExactlyOnce(nodes map[int]bool) (bool, string) {
 			// candidate loop test (for nested loops the innermost one passes): every iteration executes one
 			fail := ""
 			if !nodes[e.to] {
-				reach := g.Reach([]int{e.to}, nodes, nil)
+				reach := g.Reach([]int{e.to}, nodes, avoid)
 				if reach[hn] || anyIn(reach, g.Exits) {
 					fail = "an iteration can complete (or the function can return) without the call"
 				}
 			}
 			for n := range nodes {
-				reach := g.ReachAfter(n, setOf(hn), nil)
+				reach := g.ReachAfter(n, setOf(hn), avoid)
 				for m := range nodes {
 					if reach[m] {
 						fail = "the call can execute twice in one iteration"
